@@ -6,6 +6,8 @@
 //	               (see wrappers.go)
 //	E4 SetFuncs.v : the template set's functions of template_sets.go as terms of the same
 //	               fragment, extended (see setfuncs.go)
+//	E5 LoaderFuncs.v : the loader lookup of template_sets.go as terms of the same fragment,
+//	               extended once more (see loaderfuncs.go)
 //
 // Constructs are located by role (a package var's initialiser, the arguments of the
 // strings.Replace calls in a named function, ...), never by line.  If a construct
@@ -450,13 +452,15 @@ func main() {
 	scalar := genScalar(p)
 	wrappers := genWrappers(p)
 	setfuncs := genSetFuncs(p)
+	loaderfuncs := genLoaderFuncs(p)
 
 	if len(problems) > 0 {
 		for _, s := range problems {
 			fmt.Fprintln(os.Stderr, "go2v: PROBLEM:", s)
 		}
 	}
-	outputs := [][2]string{{"Tables.v", tables}, {"Scalar.v", scalar}, {"Wrappers.v", wrappers}, {"SetFuncs.v", setfuncs}}
+	outputs := [][2]string{{"Tables.v", tables}, {"Scalar.v", scalar}, {"Wrappers.v", wrappers}, {"SetFuncs.v", setfuncs},
+		{"LoaderFuncs.v", loaderfuncs}}
 	for _, o := range outputs {
 		name, content := o[0], o[1]
 		ch, err := writeIfChanged(filepath.Join(*out, name), []byte(content))
